@@ -46,6 +46,50 @@ def flagValue (set : List String) (k : Keys) : Bool :=
 def firstLookup {α} (fn : String) (m : List (String × α)) (k : Keys) : Option α :=
   (lookupKeyExprs fn).findSome? fun e => match k.eval e with | some key => m.lookup key | none => none
 
+/-- Everything the front end ever asks the configuration: lookups by key, memberships, and scalar settings.
+`Build` is written against this view, so "the output depends on the configuration only through …" is a
+statement about `viewOf`. -/
+structure CfgView where
+  isType : String → Bool
+  excluded : Keys → Bool
+  computed : Keys → Bool
+  required : Keys → Bool
+  sensitive : Keys → Bool
+  nameOverride : Keys → Option String
+  validators : Keys → Option (List String)
+  planModifiers : Keys → Option (List String)
+  customType : Keys → Option String
+  suffix : String → Option String
+  injected : String → List InjectedField
+  importOverride : List (String × String)
+  defaultPackageName : String
+  durationCustomType : String
+  sort : Bool
+  useStateForUnknownByDefault : Bool
+  timeType : Option SchemaTypeC
+  durationType : Option SchemaTypeC
+
+/-- the view of a configuration (the key order of each lookup is the regenerated one) -/
+def viewOf (cfg : Config) : CfgView :=
+  { isType := fun n => cfg.types.contains n
+    excluded := flagValue cfg.excludeFields
+    computed := flagValue cfg.computedFields
+    required := flagValue cfg.requiredFields
+    sensitive := flagValue cfg.sensitiveFields
+    nameOverride := firstLookup "GetNameSnake" cfg.nameOverrides
+    validators := firstLookup "GetValidators" cfg.validators
+    planModifiers := firstLookup "GetPlanModifiers" cfg.planModifiers
+    customType := firstLookup "GetCustomType" cfg.customTypes
+    suffix := fun t => cfg.suffixes.lookup t
+    injected := fun p => (cfg.injectedFields.lookup p).getD []
+    importOverride := cfg.importPathOverrides
+    defaultPackageName := cfg.defaultPackageName
+    durationCustomType := cfg.durationCustomType
+    sort := cfg.sort
+    useStateForUnknownByDefault := cfg.useStateForUnknownByDefault
+    timeType := cfg.timeType
+    durationType := cfg.durationType }
+
 def upperOf (protoType : String) : String := String.ofList (protoType.toList.map Strcase.toUpper)
 
 def tfTypeOfBase (b : Generated.TfBase) : TfType :=
@@ -71,7 +115,7 @@ def FieldD.protoTag (f : FieldD) (isMapField : Bool) : String :=
   else upperOf f.type
 
 /-- does row `r` of the switch fire for field `f`? -/
-def rowMatches (cfg : Config) (f : FieldD) (isMapField : Bool) (r : Generated.TypeRow) : Bool :=
+def rowMatches (cfg : CfgView) (f : FieldD) (isMapField : Bool) (r : Generated.TypeRow) : Bool :=
   if r.kind == "time" then f.isTime
   else if r.kind == "duration" then f.isDuration cfg.durationCustomType
   else if r.kind == "scalar" || r.kind == "enum" then r.protos.contains (f.protoTag isMapField)
@@ -79,9 +123,9 @@ def rowMatches (cfg : Config) (f : FieldD) (isMapField : Bool) (r : Generated.Ty
   else r.kind == "default"
 
 /-- `GetTerraformType` -/
-def getTerraformType (cfg : Config) (f : FieldD) (isMapField isRepeated : Bool) (goType path : String) :
+def getTerraformType (cfg : CfgView) (f : FieldD) (isMapField isRepeated : Bool) (goType path : String) :
     Except BuildError TfType :=
-  let elemType := goType.replace "[]" ""
+  let elemType := String.ofList (removeBrackets goType.toList)
   match Generated.typeRows.find? (rowMatches cfg f isMapField) with
   | none => .error (.unknownFieldType path)
   | some r =>
@@ -163,7 +207,7 @@ def goNameS (s : String) : String := String.ofList (goName s.toList)
 
 def oneOfNames (m : MsgD) : List String := m.oneofs.map goNameS
 
-def msgGoType (cfg : Config) (name : String) : String :=
+def msgGoType (cfg : CfgView) (name : String) : String :=
   if cfg.defaultPackageName == "" then name else cfg.defaultPackageName ++ "." ++ name
 
 def namePathOf (path name : String) : String :=
@@ -188,19 +232,19 @@ def keysOf (ctx : MsgCtx) (f : FieldD) : Keys :=
     path := if f.embed then ctx.desc.name else ctx.path ++ "." ++ f.name }
 
 /-- the Go type string of a declared field (`NewFieldBuildContext`) -/
-def goTypeOf (cfg : Config) (ctx : MsgCtx) (f : FieldD) : String :=
+def goTypeOf (cfg : CfgView) (ctx : MsgCtx) (f : FieldD) : String :=
   let raw :=
     if f.castType != "" then (if f.card == .repeated then "[]" ++ f.castType else f.castType)
     else if f.customType != "" then (if f.card == .repeated then "[]" ++ f.customType else f.customType)
     else if f.card == .map then "[]*" ++ ctx.desc.name ++ "_" ++ String.ofList (gogoCamelCase f.name.toList) ++ "Entry"
     else gogoGoType f
-  prependPackageNameIfMissing cfg.importPathOverrides raw cfg.defaultPackageName
+  prependPackageNameIfMissing cfg.importOverride raw cfg.defaultPackageName
 
 mutual
 
 /-- `BuildMessage` (+ `BuildFields`) for a message that is not filtered out. `fuel` bounds the nesting depth
 (the descriptor refers to messages by name); the real code has no bound. -/
-def buildMessage (fuel : Nat) (cfg : Config) (req : Request) (desc : MsgD) (isRoot : Bool) (path : String) :
+def buildMessage (fuel : Nat) (cfg : CfgView) (req : Request) (desc : MsgD) (isRoot : Bool) (path : String) :
     Except BuildError Msg :=
   match fuel with
   | 0 => .error .recursionLimit
@@ -218,30 +262,30 @@ def buildMessage (fuel : Nat) (cfg : Config) (req : Request) (desc : MsgD) (isRo
     | .ok fields =>
       .ok { info := { name := desc.name, goType := msgGoType cfg desc.name, path := ctx.path,
                       namePath := namePathOf ctx.path desc.name, isRoot := isRoot,
-                      injected := (cfg.injectedFields.lookup ctx.path).getD [],
+                      injected := cfg.injected ctx.path,
                       oneOfNames := oneOfNames desc, isEmpty := desc.fields.isEmpty,
                       comment := match desc.comment with | some c => String.ofList (messageComment c.toList) | none => "" },
             fields := fields }
 
 /-- `BuildField` proper; also used (through `setMapValues`) for the value field of a map, with the map
 field's keys, `isMap = false`, `isRepeated = false` and no comment. -/
-def buildFieldCore (fuel : Nat) (cfg : Config) (req : Request) (ctx : MsgCtx) (f : FieldD) (keys : Keys)
+def buildFieldCore (fuel : Nat) (cfg : CfgView) (req : Request) (ctx : MsgCtx) (f : FieldD) (keys : Keys)
     (goType : String) (isMap isRepeated : Bool) (hasComment : Bool) : Except BuildError (List Field) :=
   match fuel with
   | 0 => .error .recursionLimit
   | fuel' + 1 =>
-  if flagValue cfg.excludeFields keys then .ok []
+  if cfg.excluded keys then .ok []
   else
     let name := goNameS f.name
     let snake :=
-      match firstLookup "GetNameSnake" cfg.nameOverrides keys with
+      match cfg.nameOverride keys with
       | some v => v
       | none =>
         let j := jsonName (f.jsonTag.map String.toList)
         if j != [] then String.ofList j else String.ofList (snakeCase f.name.toList)
-    let isComputed := flagValue cfg.computedFields keys
+    let isComputed := cfg.computed keys
     let planMods :=
-      match firstLookup "GetPlanModifiers" cfg.planModifiers keys with
+      match cfg.planModifiers keys with
       | some v => v
       | none => if cfg.useStateForUnknownByDefault && isComputed
                 then ["github.com/hashicorp/terraform-plugin-framework/tfsdk.UseStateForUnknown()"] else []
@@ -250,10 +294,10 @@ def buildFieldCore (fuel : Nat) (cfg : Config) (req : Request) (ctx : MsgCtx) (f
     | .error e => .error e
     | .ok tf =>
       let info : FieldInfo :=
-        { name := name, nameSnake := snake, isRequired := flagValue cfg.requiredFields keys, isComputed := isComputed,
-          isSensitive := flagValue cfg.sensitiveFields keys, isRepeated := isRepeated, isMap := isMap,
+        { name := name, nameSnake := snake, isRequired := cfg.required keys, isComputed := isComputed,
+          isSensitive := cfg.sensitive keys, isRepeated := isRepeated, isMap := isMap,
           isNullable := goType.toList.contains '*',
-          validators := (firstLookup "GetValidators" cfg.validators keys).getD [],
+          validators := (cfg.validators keys).getD [],
           planModifiers := planMods, path := keys.path, comment := comment,
           goType := goType, goElemType := goType, tf := tf, protoType := f.type }
       -- nested message (not for maps)
@@ -276,7 +320,7 @@ def buildFieldCore (fuel : Nat) (cfg : Config) (req : Request) (ctx : MsgCtx) (f
           | some m =>
             if !info.isNullable then .ok m.fields
             else
-              let full := (goType.dropPrefix "*").toString
+              let full := String.ofList (dropStar goType.toList)
               let short := match lastIndexOfChar '.' full.toList with
                 | some i => String.ofList (full.toList.drop (i + 1))
                 | none => full
@@ -288,8 +332,8 @@ def buildFieldCore (fuel : Nat) (cfg : Config) (req : Request) (ctx : MsgCtx) (f
             if isMap then
               if scalarGoType f.mapKey != "string" then .error (.nonStringMapKey keys.path)
               else
-                let typ := prependPackageNameIfMissing cfg.importPathOverrides (gogoMapGoType f) cfg.defaultPackageName
-                let vGo := prependPackageNameIfMissing cfg.importPathOverrides (afterLastBracket typ) cfg.defaultPackageName
+                let typ := prependPackageNameIfMissing cfg.importOverride (gogoMapGoType f) cfg.defaultPackageName
+                let vGo := prependPackageNameIfMissing cfg.importOverride (afterLastBracket typ) cfg.defaultPackageName
                 match buildFieldCore fuel' cfg req ctx f.mapValueField keys vGo false false false with
                 | .error e => .error e
                 | .ok [] => .error (.unknownFieldType keys.path)   -- "expected at least one field"
@@ -304,11 +348,10 @@ def buildFieldCore (fuel : Nat) (cfg : Config) (req : Request) (ctx : MsgCtx) (f
           | .error e => .error e
           | .ok (info, mapV) =>
             -- custom type
-            let cfgCustom := (firstLookup "IsCustomType" cfg.customTypes keys)
-            let isCustom := f.customType != "" || cfgCustom.isSome
-            let customType := match firstLookup "GetCustomType" cfg.customTypes keys with | some c => c | none => f.customType
+            let isCustom := f.customType != "" || (cfg.customType keys).isSome
+            let customType := match cfg.customType keys with | some c => c | none => f.customType
             let suffix := if !isCustom then "" else
-              match cfg.suffixes.lookup customType with
+              match cfg.suffix customType with
               | some s => s
               | none => stripChars customType ['/', '.']
             let mapValIsMessage := match mapV with | some v => v.info.tf.isMessage | none => false
@@ -336,8 +379,8 @@ def defaultFuel (req : Request) : Nat := 2 * (req.allFiles.flatMap (·.messages)
 
 /-- `BuildMessage(plugin, message, true, "")` for one top-level message: `none` when it is not listed in `types`. -/
 def buildRoot (cfg : Config) (req : Request) (desc : MsgD) : Except BuildError (Option Msg) :=
-  if !cfg.types.contains desc.name then .ok none
-  else match buildMessage (defaultFuel req) cfg req desc true "" with
+  if !(viewOf cfg).isType desc.name then .ok none
+  else match buildMessage (defaultFuel req) (viewOf cfg) req desc true "" with
     | .error e => .error e
     | .ok m => .ok (some m)
 
